@@ -1,6 +1,8 @@
 """C03 — crash recovery is atomic and prefix-consistent (E4)."""
 from . import crashwl as W
 
+PARAM_SECTIONS = ["wal"]
+
 MODEL_TARGETS = []
 TRUSTED = __import__("vlib.c02", fromlist=["TRUSTED"]).TRUSTED
 ASSUMPTIONS = __import__("vlib.c02", fromlist=["ASSUMPTIONS"]).ASSUMPTIONS
